@@ -363,10 +363,10 @@ def run(ck: Check):
     # item-level streams
     k = item_streams(ck, drv)
     ck.cover(dist={"item_stream_cases": k})
-    ck.partial.append("file level (parse_encode = C05_full) is proved for every file that Encodes well-formed tables in "
-                      "any layout, with one restriction: code items without tries (the try/handler bytes after the "
-                      "instructions are skipped over by the model's decCode and are C08's subject; files with tries are "
-                      "covered by the correspondence and the oracle, not by the theorem)")
+    ck.notes.append("file level: parse_encode (= C05_full) is proved for every file that Encodes well-formed tables in any "
+                    "layout (code items with or without tries); the theorem's domain is files whose sections are stored "
+                    "back to back at the offsets their map entries give — everything else (truncated, overlapping item "
+                    "types, duplicate map types) is covered by the correspondence and the oracle only")
     ck.assumptions += [
         "mutf8.decode is an injective renaming of MUTF-8 byte strings that commutes with concatenation (C06); the model keeps raw bytes",
         "header validation (C09), annotations, static values, debug info, hidden-api data are not in the model",
